@@ -21,8 +21,13 @@
 From Verif Require Import Lib.Base.
 
 Record node := mkNode {
-  n_id : N; n_ent : N; n_cons : N; n_p2p : N; n_vrf : N; n_tls : N; n_exp : N }.
+  n_id : N; n_ent : N; n_cons : N; n_p2p : N; n_vrf : N; n_tls : N; n_exp : N;
+  n_roles : N;            (* node.RolesMask: 1 compute, 2 observer, 4 key manager, 8 validator, 32 storage-rpc *)
+  n_rts : list N }.       (* ids of the runtimes the descriptor lists (one version each, no TEE) *)
 Record entity := mkEnt { e_id : N; e_nodes : list N }.
+(* runtime descriptor: kind 1 compute / 2 key manager; governance 1 entity / 2 runtime / 3 consensus;
+   admission policy: None = any node, Some l = entity whitelist without per-role limits *)
+Record runtime := mkRt { r_id : N; r_ent : N; r_kind : N; r_gov : N; r_wl : option (list N) }.
 
 (* ---------- finite sets of pairs (index entries with empty value) ---------- *)
 Definition pair_eqb (a b : N * N) : bool := (fst a =? fst b) && (snd a =? snd b).
@@ -53,18 +58,27 @@ Record state := mkSt {
   s_rtown  : list (N * N);        (* 0x19 (entity id, runtime id) *)
   s_claims : list (N * N);        (* staking: (entity account, claim): 0 = registry.RegisterEntity,
                                      id+1 = registry.RegisterNode.<id> *)
-  s_epoch  : N }.
+  s_epoch  : N;
+  s_rts    : list (N * runtime);  (* 0x13 active runtimes *)
+  s_susp   : list (N * runtime);  (* 0x18 suspended runtimes *)
+  s_rtclaims : list (N * N);      (* staking: (account, runtime id) for registry.RegisterRuntime.<id>;
+                                     account 2*e = entity e, 2*r+1 = runtime r's own account *)
+  s_nthr   : list (N * list N) }. (* threshold kinds stored with the node claim of node id *)
 
-Definition st0 : state := mkSt [] [] [] [] [] [] [] 0.
+Definition st0 : state := mkSt [] [] [] [] [] [] [] 0 [] [] [] [].
 
-Definition with_nodes s v := mkSt (s_ents s) v (s_byent s) (s_addr s) (s_keymap s) (s_rtown s) (s_claims s) (s_epoch s).
-Definition with_ents s v := mkSt v (s_nodes s) (s_byent s) (s_addr s) (s_keymap s) (s_rtown s) (s_claims s) (s_epoch s).
-Definition with_byent s v := mkSt (s_ents s) (s_nodes s) v (s_addr s) (s_keymap s) (s_rtown s) (s_claims s) (s_epoch s).
-Definition with_addr s v := mkSt (s_ents s) (s_nodes s) (s_byent s) v (s_keymap s) (s_rtown s) (s_claims s) (s_epoch s).
-Definition with_keymap s v := mkSt (s_ents s) (s_nodes s) (s_byent s) (s_addr s) v (s_rtown s) (s_claims s) (s_epoch s).
-Definition with_rtown s v := mkSt (s_ents s) (s_nodes s) (s_byent s) (s_addr s) (s_keymap s) v (s_claims s) (s_epoch s).
-Definition with_claims s v := mkSt (s_ents s) (s_nodes s) (s_byent s) (s_addr s) (s_keymap s) (s_rtown s) v (s_epoch s).
-Definition with_epoch s v := mkSt (s_ents s) (s_nodes s) (s_byent s) (s_addr s) (s_keymap s) (s_rtown s) (s_claims s) v.
+Definition with_nodes s v := mkSt (s_ents s) v (s_byent s) (s_addr s) (s_keymap s) (s_rtown s) (s_claims s) (s_epoch s) (s_rts s) (s_susp s) (s_rtclaims s) (s_nthr s).
+Definition with_ents s v := mkSt v (s_nodes s) (s_byent s) (s_addr s) (s_keymap s) (s_rtown s) (s_claims s) (s_epoch s) (s_rts s) (s_susp s) (s_rtclaims s) (s_nthr s).
+Definition with_byent s v := mkSt (s_ents s) (s_nodes s) v (s_addr s) (s_keymap s) (s_rtown s) (s_claims s) (s_epoch s) (s_rts s) (s_susp s) (s_rtclaims s) (s_nthr s).
+Definition with_addr s v := mkSt (s_ents s) (s_nodes s) (s_byent s) v (s_keymap s) (s_rtown s) (s_claims s) (s_epoch s) (s_rts s) (s_susp s) (s_rtclaims s) (s_nthr s).
+Definition with_keymap s v := mkSt (s_ents s) (s_nodes s) (s_byent s) (s_addr s) v (s_rtown s) (s_claims s) (s_epoch s) (s_rts s) (s_susp s) (s_rtclaims s) (s_nthr s).
+Definition with_rtown s v := mkSt (s_ents s) (s_nodes s) (s_byent s) (s_addr s) (s_keymap s) v (s_claims s) (s_epoch s) (s_rts s) (s_susp s) (s_rtclaims s) (s_nthr s).
+Definition with_claims s v := mkSt (s_ents s) (s_nodes s) (s_byent s) (s_addr s) (s_keymap s) (s_rtown s) v (s_epoch s) (s_rts s) (s_susp s) (s_rtclaims s) (s_nthr s).
+Definition with_epoch s v := mkSt (s_ents s) (s_nodes s) (s_byent s) (s_addr s) (s_keymap s) (s_rtown s) (s_claims s) v (s_rts s) (s_susp s) (s_rtclaims s) (s_nthr s).
+Definition with_rts s v := mkSt (s_ents s) (s_nodes s) (s_byent s) (s_addr s) (s_keymap s) (s_rtown s) (s_claims s) (s_epoch s) v (s_susp s) (s_rtclaims s) (s_nthr s).
+Definition with_susp s v := mkSt (s_ents s) (s_nodes s) (s_byent s) (s_addr s) (s_keymap s) (s_rtown s) (s_claims s) (s_epoch s) (s_rts s) v (s_rtclaims s) (s_nthr s).
+Definition with_rtclaims s v := mkSt (s_ents s) (s_nodes s) (s_byent s) (s_addr s) (s_keymap s) (s_rtown s) (s_claims s) (s_epoch s) (s_rts s) (s_susp s) v (s_nthr s).
+Definition with_nthr s v := mkSt (s_ents s) (s_nodes s) (s_byent s) (s_addr s) (s_keymap s) (s_rtown s) (s_claims s) (s_epoch s) (s_rts s) (s_susp s) (s_rtclaims s) v.
 
 (* ---------- index updates as explicit operation lists ---------- *)
 Inductive kop := KDel (k : N) | KSet (k v : N).
@@ -106,7 +120,8 @@ Definition addr_ops (addr : N -> N) (ex : option node) (n : node) : list kop :=
 (* ---------- result codes (errors projected to a small enum) ---------- *)
 Inductive code :=
 | COk | CInvalidSignature | CInvalidArgument | CIncorrectTxSigner | CNoSuchEntity
-| CNodeExpired | CNodeUpdateNotAllowed | CEntityHasNodes | CEntityHasRuntimes | COther.
+| CNodeExpired | CNodeUpdateNotAllowed | CEntityHasNodes | CEntityHasRuntimes | COther
+| CForbidden | CRuntimeUpdateNotAllowed | CNoSuchRuntime.
 
 (* ---------- operations ---------- *)
 Inductive op :=
@@ -122,7 +137,12 @@ Inductive op :=
 | TRegEntity (txs : N) (e : entity) (dsigner : N) (sig_ok : bool)
 | TDeregEntity (txs : N)
 | TRegNode (txs : N) (n : node) (dsigners : list N) (sig_ok : bool)
-| TEpoch (e : N).
+| TEpoch (e : N)
+(* RegisterRuntime; [caller] is the caller's staking account: 2*k for a
+   transaction signed by key k, 2*r+1 for a message emitted by runtime r *)
+| TRegRuntime (caller : N) (rt : runtime)
+(* environment: the roothash application suspends a runtime (state.SuspendRuntime) *)
+| LSuspendRt (r : N).
 
 Section WithParams.
   Variable addr : N -> N.
@@ -161,6 +181,21 @@ Section WithParams.
   Definition has_entity_nodes (s : state) (e : N) : bool := has_fst e (s_byent s).
   Definition has_entity_runtimes (s : state) (e : N) : bool := has_fst e (s_rtown s).
 
+  (* AnyRuntime state.go:306-312: active, else suspended *)
+  Definition any_runtime (s : state) (r : N) : option runtime :=
+    match aget r (s_rts s) with
+    | Some x => Some x
+    | None => aget r (s_susp s)
+    end.
+  Definition has_role (roles mask : N) : bool := negb (N.land roles mask =? 0).   (* node.go:378 *)
+  (* Runtime.StakingAddress runtime.go:631-642 *)
+  Definition rt_acct (rt : runtime) : option N :=
+    if r_gov rt =? 1 then Some (2 * r_ent rt)
+    else if r_gov rt =? 2 then Some (2 * r_id rt + 1)
+    else None.
+  (* runtime ids with the key-manager namespace flag (the harness's runtime pool: 3 and above) *)
+  Definition km_id (r : N) : bool := 3 <=? r.
+
   (* VerifyRegisterEntityArgs api.go:432-488 + registerEntity transactions.go:21-102 *)
   Definition reg_entity_check (txs : N) (e : entity) (dsigner : N) (sig_ok : bool) : code :=
     if negb sig_ok then CInvalidSignature                      (* api.go:446 Open *)
@@ -176,6 +211,27 @@ Section WithParams.
     (N.of_nat (length (ndedup signers)) =? N.of_nat (length pks)) &&
     forallb (is_signed_by signers) pks.
 
+  (* api.go:580-650: the runtimes of the descriptor, in order *)
+  Fixpoint node_rts_loop (s : state) (roles : N) (seen l : list N) : code :=
+    match l with
+    | [] => COk
+    | r :: rest =>
+        if nmem r seen then CInvalidArgument                           (* 602 duplicate version *)
+        else match any_runtime s r with
+             | None => CNoSuchRuntime                                  (* 613 *)
+             | Some rt =>
+                 if (r_kind rt =? 2) && negb (has_role roles 4) then CInvalidArgument       (* 637 *)
+                 else if (r_kind rt =? 1) && negb (has_role roles 3) then CInvalidArgument  (* 640 *)
+                 else node_rts_loop s roles (r :: seen) rest
+             end
+    end.
+  Definition node_rts_check (s : state) (n : node) : code :=
+    match n_rts n with
+    | [] => if has_role (n_roles n) 39 then CInvalidArgument else COk  (* 587 missing runtimes *)
+    | l => node_rts_loop s (n_roles n) [] l
+    end.
+  Definition code_is_ok (c : code) : bool := match c with COk => true | _ => false end.
+
   Definition dup_subkey (s : state) (n : node) (k : N) : bool :=
     match node_by_subkey s k with
     | Some ex => negb (n_id ex =? n_id n)
@@ -187,9 +243,11 @@ Section WithParams.
   Definition verify_register_node_args (s : state) (ent : entity) (n : node)
              (signers : list N) (sig_ok : bool) : code :=
     if negb sig_ok then CInvalidSignature                              (* 521 *)
+    else if n_roles n =? 0 then CInvalidArgument                       (* 528 ValidateBasic: no roles *)
     else if negb (is_signed_by signers (n_id n)) then CInvalidArgument (* 546 *)
     else if negb (nmem (n_id n) (e_nodes ent)) then CInvalidArgument   (* 554 entity.HasNode *)
     else if (0 <? maxexp) && (s_epoch s + maxexp <? n_exp n) then CInvalidArgument (* 567-575 *)
+    else if negb (code_is_ok (node_rts_check s n)) then node_rts_check s n  (* 580-650 *)
     else if negb (is_signed_by signers (n_cons n)) then CInvalidArgument (* 657 *)
     else if negb (is_signed_by signers (n_vrf n)) then CInvalidArgument  (* 683 *)
     else if negb (is_signed_by signers (n_tls n)) then CInvalidArgument  (* 700 *)
@@ -210,7 +268,25 @@ Section WithParams.
     else if negb (n_ent cur =? n_ent n) then CNodeUpdateNotAllowed    (* 1061 *)
     else if negb (n_cons cur =? n_cons n) then CNodeUpdateNotAllowed  (* 1069 *)
     else if n_exp cur <? epoch then COk                               (* 1078 IsExpired *)
-    else COk.                                                         (* 1082-1102 *)
+    else if negb (forallb (fun r => nmem r (n_rts n)) (n_rts cur))
+         then CNodeUpdateNotAllowed                                   (* 1082 a current runtime is missing *)
+    else if negb (has_role (n_roles n) (n_roles cur)) then CNodeUpdateNotAllowed  (* 1092 *)
+    else COk.
+
+  (* RuntimeAdmissionPolicy.Verify admission.go:57-160 for every runtime of the node *)
+  Fixpoint admission_check (s : state) (n : node) (l : list N) : code :=
+    match l with
+    | [] => COk
+    | r :: rest =>
+        match any_runtime s r with
+        | Some rt =>
+            match r_wl rt with
+            | Some wl => if nmem (n_ent n) wl then admission_check s n rest else CForbidden
+            | None => admission_check s n rest
+            end
+        | None => admission_check s n rest
+        end
+    end.
 
   (* registerNode transactions.go:187-470: every check in order; COk iff the
      descriptor is stored *)
@@ -221,6 +297,8 @@ Section WithParams.
         match verify_register_node_args s ent n signers sig_ok with
         | COk =>
             if negb (txs =? n_id n) then CIncorrectTxSigner            (* 259 *)
+            else if negb (code_is_ok (admission_check s n (n_rts n)))
+                 then admission_check s n (n_rts n)                    (* 265-269 *)
             else if n_exp n <=? s_epoch s then CNodeExpired            (* 278 *)
             else match aget (n_id n) (s_nodes s) with
                  | Some cur => verify_node_update (s_epoch s) cur n    (* 366 *)
@@ -252,12 +330,96 @@ Section WithParams.
     | Some n =>
         if (n_exp n <? e) && (n_exp n + debond <? e) then    (* registry.go:214, 240 *)
           let s := remove_node n s in
-          with_claims s (pdel (n_ent n, n_id n + 1) (s_claims s))   (* registry.go:250 *)
+          let s := with_claims s (pdel (n_ent n, n_id n + 1) (s_claims s)) in  (* registry.go:250 *)
+          with_nthr s (adel (n_id n) (s_nthr s))
         else s
     | None => s
     end.
   Definition epoch_change (e : N) (s : state) : state :=
     fold_left (epoch_one e) (sorted_ids s) (with_epoch s e).
+
+  (* threshold kinds of a node claim, StakeThresholdsForNode api.go:1547-1598
+     (per-runtime constants are zero): 1 validator, 2 compute, 3 observer, 4 key manager *)
+  Definition node_kinds (n : node) : list N :=
+    (if has_role (n_roles n) 8 then [1] else []) ++
+    flat_map (fun _ : N =>
+                (if has_role (n_roles n) 4 then [4] else []) ++
+                (if has_role (n_roles n) 1 then [2] else []) ++
+                (if has_role (n_roles n) 2 then [3] else [])) (n_rts n).
+
+  (* transactions.go:421-465: a suspended runtime the node registered for is resumed *)
+  Definition resume_one (s : state) (r : N) : state :=
+    match aget r (s_susp s) with
+    | Some rt => with_rts (with_susp s (adel r (s_susp s))) (aset r rt (s_rts s))
+    | None => s
+    end.
+
+  (* registerRuntime transactions.go:577-846 (descriptor otherwise well formed:
+     deployments constant, no key manager reference, DebugDeployImmediately) *)
+  (* VerifyRuntimeUpdate api.go:1234-1371 for an existing (active or suspended) runtime *)
+  Definition rt_update_check (s : state) (rt : runtime) : code :=
+    match any_runtime s (r_id rt) with
+    | Some ex =>
+        if negb (r_kind ex =? r_kind rt) then CRuntimeUpdateNotAllowed  (* api.go:1249 *)
+        else if negb (r_gov ex =? r_gov rt) && negb ((r_gov ex =? 1) && (r_gov rt =? 2))
+             then CRuntimeUpdateNotAllowed                              (* api.go:1279-1289 *)
+        else COk
+    | None => COk
+    end.
+  (* transactions.go:662-700: the caller must be the account that controls the
+     EXISTING descriptor if there is one, else the new one *)
+  Definition rt_signer_check (s : state) (caller : N) (rt : runtime) : code :=
+    let chk := match any_runtime s (r_id rt) with Some ex => ex | None => rt end in
+    match rt_acct chk with
+    | None => CForbidden                                                (* 681 *)
+    | Some a =>
+        if caller =? a then COk
+        else if r_gov chk =? 1 then CIncorrectTxSigner                  (* 689 *)
+        else CForbidden                                                 (* 692 *)
+    end.
+  Definition reg_runtime_check (s : state) (caller : N) (rt : runtime) : code :=
+    if (r_kind rt =? 1) && km_id (r_id rt) then CInvalidArgument          (* runtime.go:428 *)
+    else if (r_kind rt =? 2) && negb (km_id (r_id rt)) then CInvalidArgument (* runtime.go:446 *)
+    else if negb ((r_kind rt =? 1) || (r_kind rt =? 2)) then CInvalidArgument (* runtime.go:459 *)
+    else if (r_gov rt <? 1) || (3 <? r_gov rt) then CInvalidArgument      (* runtime.go:470 *)
+    else if negb ((r_gov rt =? 1) || (r_gov rt =? 2)) then CForbidden     (* api.go:1149 model not enabled *)
+    else if (r_gov rt =? 2) && negb (r_kind rt =? 1) then CInvalidArgument (* api.go:1171 *)
+    else match rt_update_check s rt with
+         | COk => rt_signer_check s caller rt
+         | c => c
+         end.
+
+  Definition reg_runtime_apply (s : state) (rt : runtime) : state :=
+    let ex := any_runtime s (r_id rt) in
+    let suspended := match aget (r_id rt) (s_rts s) with
+                     | Some _ => false
+                     | None => match aget (r_id rt) (s_susp s) with Some _ => true | None => false end
+                     end in
+    (* 716-752 stake claim on the new owner's account, removed from the previous one *)
+    let s := match rt_acct rt with
+             | Some a =>
+                 let cl := padd (a, r_id rt) (s_rtclaims s) in
+                 let cl := match ex with
+                           | Some old =>
+                               match rt_acct old with
+                               | Some b => if b =? a then cl else pdel (b, r_id rt) cl
+                               | None => cl
+                               end
+                           | None => cl
+                           end in
+                 with_rtclaims s cl
+             | None => s
+             end in
+    (* 781 SetRuntime(rt, suspended) *)
+    let s := if suspended then with_susp s (aset (r_id rt) rt (s_susp s))
+             else with_rts s (aset (r_id rt) rt (s_rts s)) in
+    (* 792-822 owner index *)
+    match ex with
+    | None => with_rtown s (padd (r_ent rt, r_id rt) (s_rtown s))
+    | Some old =>
+        if r_ent old =? r_ent rt then s
+        else with_rtown s (padd (r_ent rt, r_id rt) (pdel (r_ent old, r_id rt) (s_rtown s)))
+    end.
 
   Definition step (s : state) (o : op) : code * state :=
     match o with
@@ -284,11 +446,23 @@ Section WithParams.
     | TRegNode txs n signers ok =>
         match reg_node_check s txs n signers ok with
         | COk =>
-            let s1 := with_claims s (padd (n_ent n, n_id n + 1) (s_claims s)) in
-            (COk, set_node (aget (n_id n) (s_nodes s)) n s1)
+            let s1 := with_claims s (padd (n_ent n, n_id n + 1) (s_claims s)) in  (* 341-362 *)
+            let s2 := set_node (aget (n_id n) (s_nodes s)) n s1 in              (* 376 *)
+            let s3 := with_nthr s2 (aset (n_id n) (node_kinds n) (s_nthr s)) in (* thresholds stored with the claim *)
+            (COk, fold_left resume_one (n_rts n) s3)                            (* 421-465 *)
         | c => (c, s)
         end
     | TEpoch e => (COk, epoch_change e s)
+    | TRegRuntime caller rt =>
+        match reg_runtime_check s caller rt with
+        | COk => (COk, reg_runtime_apply s rt)
+        | c => (c, s)
+        end
+    | LSuspendRt r =>
+        match aget r (s_rts s) with                                  (* state.go:694-709 *)
+        | Some rt => (COk, with_susp (with_rts s (adel r (s_rts s))) (aset r rt (s_susp s)))
+        | None => (CNoSuchRuntime, s)
+        end
     end.
 
   Definition run (ops : list op) (s : state) : state :=
@@ -297,7 +471,7 @@ Section WithParams.
   (* ---------- observations compared with the implementation ---------- *)
   Definition optid (o : option node) : N := match o with Some n => n_id n + 1 | None => 0 end.
   Definition node_row (n : node) : list N :=
-    [n_id n; n_ent n; n_cons n; n_p2p n; n_vrf n; n_tls n; n_exp n].
+    [n_id n; n_ent n; n_cons n; n_p2p n; n_vrf n; n_tls n; n_exp n; n_roles n] ++ n_rts n.
   Definition DANGLING : N := 999999.
   (* GetEntityNodes state.go:405-445: ids of the by-entity entries, each must resolve *)
   Definition entity_nodes_row (s : state) (e : N) : list N :=
@@ -309,8 +483,31 @@ Section WithParams.
     | Some ent => e :: 1 :: e_nodes ent
     | None => [e; 0]
     end.
+  (* claims of an account, each as [code; number of thresholds; kinds...]:
+     entity/node claims (codes 0, id+1) then runtime claims (1000 + r) *)
+  Definition rt_claims_part (s : state) (a : N) : list N :=
+    flat_map (fun r => [1000 + r; 1;
+                        match any_runtime s r with
+                        | Some rt => if r_kind rt =? 1 then 5 else 6
+                        | None => 77
+                        end])
+             (nsort (map snd (filter (fun p => fst p =? a) (s_rtclaims s)))).
   Definition claims_row (s : state) (e : N) : list N :=
-    e :: nsort (map snd (filter (fun p => fst p =? e) (s_claims s))).
+    e :: flat_map (fun c => if c =? 0 then [0; 1; 0]
+                            else match aget (c - 1) (s_nthr s) with
+                                 | Some ks => c :: N.of_nat (length ks) :: ks
+                                 | None => [c; 77]
+                                 end)
+                  (nsort (map snd (filter (fun p => fst p =? e) (s_claims s))))
+      ++ rt_claims_part s (2 * e).
+  Definition rt_acct_row (s : state) (r : N) : list N := (2000 + r) :: rt_claims_part s (2 * r + 1).
+  Definition runtime_row (s : state) (r : N) : list N :=
+    let row st rt := [r; st; r_ent rt; r_kind rt; r_gov rt] ++
+                     match r_wl rt with Some l => 1 :: l | None => [0] end in
+    match aget r (s_rts s) with
+    | Some rt => row 1 rt
+    | None => match aget r (s_susp s) with Some rt => row 2 rt | None => [r; 0] end
+    end.
   Definition b2n (b : bool) : N := if b then 1 else 0.
 
   Definition observe (keys ents : list N) (s : state) : list (list N) :=
@@ -321,7 +518,9 @@ Section WithParams.
     map (entity_row s) ents ++
     [map (fun e => b2n (has_entity_nodes s e)) ents] ++
     [map (fun e => b2n (has_entity_runtimes s e)) ents] ++
-    map (claims_row s) ents.
+    map (claims_row s) ents ++
+    map (runtime_row s) [1; 2; 3] ++
+    map (rt_acct_row s) [1; 2; 3].
 
   Fixpoint run_obs (keys ents : list N) (ops : list op) (s : state) : list (code * list (list N)) :=
     match ops with
@@ -337,6 +536,7 @@ Definition code_n (c : code) : N :=
   | COk => 0 | CInvalidSignature => 1 | CInvalidArgument => 2 | CIncorrectTxSigner => 3
   | CNoSuchEntity => 4 | CNodeExpired => 5 | CNodeUpdateNotAllowed => 6
   | CEntityHasNodes => 7 | CEntityHasRuntimes => 8 | COther => 9
+  | CForbidden => 10 | CRuntimeUpdateNotAllowed => 11 | CNoSuchRuntime => 12
   end.
 Definition obs_eqb (a b : code * list (list N)) : bool :=
   (code_n (fst a) =? code_n (fst b)) && list_eqb (list_eqb N.eqb) (snd a) (snd b).
